@@ -332,6 +332,14 @@ class RepoFacts:
                     pass
         return self._units | self.extra_units
 
+    def is_inlined_helper(self, k):
+        """A kernel that is only ever called from other kernels and that no rule treats as a unit: it is walked inline at each of
+        its call sites, where its obligations are decided with the caller's facts (never stand-alone)."""
+        if not k.is_kernel or k.name in self.units():
+            return False
+        callers = [c.caller for c in self.calls_to(k)]
+        return bool(callers) and all(c.is_kernel for c in callers)
+
     def walk(self, func, **kw):
         if func.is_kernel and "no_inline" not in kw:
             kw["no_inline"] = frozenset(self.units())
